@@ -196,7 +196,7 @@ def ev(node, env, hooks=None):
                 raise Undecidable('pattern does not match: None.%s' % node.func.attr)
             if isinstance(obj, _re.Match):
                 return getattr(obj, node.func.attr)(*[E(a) for a in node.args])
-        if isinstance(node.func, ast.Attribute) and node.func.attr in ('startswith', 'endswith', 'isdigit'):
+        if isinstance(node.func, ast.Attribute) and node.func.attr in ('startswith', 'endswith', 'isdigit', 'isalnum', 'isalpha', 'isdecimal', 'isupper', 'islower', 'isspace', 'isascii', 'isnumeric'):
             obj = E(node.func.value)
             if isinstance(obj, str):
                 return getattr(obj, node.func.attr)(*[E(a) for a in node.args])
